@@ -31,6 +31,7 @@ FIRST = {
     "C04-absolute-single-cas": "exit 0 (sequentially identical) -> R/G harness c04_counter_absolute_rg (other threads raise the counter before every atomic step)",
     "C09-gauge-format-finite": "exit 2 (ryu stub had no format_finite) -> stub method with ryu's documented precondition (finite input)",
     "C08-label-key-leading-digit-unsanitised": "exit 0 (key_to_parts glue was only in C07's plan) -> labels template added to C08's plan; the change rewrites the format!/map/collect chain that R20 replaces, so it is now reported as undecided",
+    "C06-clear-skips-last-shard": "exit 0 (Registry::clear had no contract) -> shard-accounting contract on clear; the change fuses the three loops, which the loop-indexed invariants cannot follow, so it is now reported as undecided",
     "C17-new-span-merges-current-not-parent": "exit 2 expected, not run (Context stub lacked lookup_current) -> stub widened",
     "C17-filter-sees-empty-value": "exit 2 expected, not run (closure annotation keyed to parameter names) -> annotation by position",
 }
